@@ -3,6 +3,7 @@ package props
 import (
 	"bytes"
 	"fmt"
+	"io"
 	"reflect"
 	"strconv"
 	"strings"
@@ -318,6 +319,35 @@ func encodeSequence(a []string) (string, error) {
 	return buf.String(), nil
 }
 
+// presentFieldsDiffer compares, field by field, a struct that was decoded into repeatedly
+// with a freshly decoded one, for the fields whose key the paragraph carries.
+func presentFieldsDiffer(reused, fresh reflect.Value, p control.Paragraph) string {
+	t := reused.Type()
+	for i := 0; i < t.NumField(); i++ {
+		f := t.Field(i)
+		if f.Type == reflect.TypeOf(control.Paragraph{}) {
+			continue
+		}
+		if f.Type.Kind() == reflect.Struct && !reflect.PtrTo(f.Type).Implements(unmarshallableT) {
+			if d := presentFieldsDiffer(reused.Field(i), fresh.Field(i), p); d != "" {
+				return f.Name + "." + d
+			}
+			continue
+		}
+		key := f.Name
+		if it := f.Tag.Get("control"); it != "" {
+			key = it
+		}
+		if _, ok := p.Values[key]; !ok || key == "-" || f.Anonymous {
+			continue
+		}
+		if a, b := dumpGoValue(reused.Field(i)), dumpGoValue(fresh.Field(i)); a != b {
+			return fmt.Sprintf("%s: %s, a fresh struct gets %s", f.Name, a, b)
+		}
+	}
+	return ""
+}
+
 func marshalGo(v reflect.Value) (string, error) {
 	var buf bytes.Buffer
 	err := control.Marshal(&buf, v.Addr().Interface())
@@ -344,6 +374,84 @@ var codecImpl = map[string]core.Adapter{
 			xs = append(xs, dumpGoRecord(v.Elem().Index(i)))
 		}
 		return "ok [" + strings.Join(xs, ";") + "]"
+	},
+	// law: every way into the decoder gives the same records: Unmarshal into a slice, a
+	// Decoder asked paragraph by paragraph for a fresh struct, the same Decoder filling one
+	// struct over and over, and UnpackFromParagraph on the paragraphs of a ParagraphReader;
+	// and ConvertToParagraph + WriteTo is what Marshal writes
+	"law-codecentry": func(a []string) string {
+		t, rest := codecArgs(a)
+		text := core.MustUnHex(rest[0])
+		sl := reflect.New(reflect.SliceOf(t))
+		if err := control.Unmarshal(sl.Interface(), strings.NewReader(text)); err != nil {
+			return "ok"
+		}
+		var want []string
+		for i := 0; i < sl.Elem().Len(); i++ {
+			want = append(want, dumpGoRecord(sl.Elem().Index(i)))
+		}
+		paras, _ := readAllParas(text)
+		for _, reuse := range []bool{false, true} {
+			d, err := control.NewDecoder(strings.NewReader(text), nil)
+			if err != nil {
+				return "FAIL NewDecoder: " + err.Error()
+			}
+			v := reflect.New(t)
+			for i := 0; ; i++ {
+				if !reuse {
+					v = reflect.New(t)
+				}
+				err := d.Decode(v.Interface())
+				if err == io.EOF {
+					if i != len(want) {
+						return fmt.Sprintf("FAIL Decoder (reuse=%v) ends after %d paragraphs, Unmarshal into a slice gave %d", reuse, i, len(want))
+					}
+					break
+				}
+				if err != nil {
+					return fmt.Sprintf("FAIL Decoder (reuse=%v) paragraph %d: %v", reuse, i, err)
+				}
+				if i >= len(want) {
+					return fmt.Sprintf("FAIL Decoder (reuse=%v) returns a paragraph %d, Unmarshal into a slice gave %d", reuse, i, len(want))
+				}
+				if !reuse && dumpGoRecord(v.Elem()) != want[i] {
+					return fmt.Sprintf("FAIL Decoder paragraph %d: %s, Unmarshal into a slice gave %s", i, dumpGoRecord(v.Elem()), want[i])
+				}
+				// a struct that is decoded into again: every field the paragraph has must hold
+				// what the paragraph says (fields it does not have keep what they held, as
+				// with encoding/json)
+				if reuse && i < len(paras) {
+					if d := presentFieldsDiffer(v.Elem(), sl.Elem().Index(i), paras[i]); d != "" {
+						return fmt.Sprintf("FAIL one struct decoded into again, paragraph %d, field %s", i, d)
+					}
+				}
+			}
+		}
+		ps, err := readAllParas(text)
+		if err != nil || len(ps) != len(want) {
+			return fmt.Sprintf("FAIL ParagraphReader gives %d paragraphs (%v), the decoder %d", len(ps), err, len(want))
+		}
+		for i, p := range ps {
+			v := reflect.New(t)
+			if err := control.UnpackFromParagraph(p, v.Interface()); err != nil || dumpGoRecord(v.Elem()) != want[i] {
+				return fmt.Sprintf("FAIL UnpackFromParagraph paragraph %d: %s %v, want %s", i, dumpGoRecord(v.Elem()), err, want[i])
+			}
+			if t.Name() == "ProbeNested" {
+				continue
+			}
+			m1, err1 := marshalGo(v.Elem())
+			cp, err2 := control.ConvertToParagraph(v.Interface())
+			if (err1 == nil) != (err2 == nil) {
+				return fmt.Sprintf("FAIL Marshal error %v, ConvertToParagraph error %v", err1, err2)
+			}
+			if err1 == nil {
+				var b bytes.Buffer
+				if err := cp.WriteTo(&b); err != nil || b.String() != m1 {
+					return fmt.Sprintf("FAIL ConvertToParagraph+WriteTo %q, Marshal %q", b.String(), m1)
+				}
+			}
+		}
+		return "ok"
 	},
 	"codecm": func(a []string) string {
 		t, rest := codecArgs(a)
@@ -717,29 +825,40 @@ func streamCodec(g *core.G) {
 	for i := 0; i < n; i++ {
 		typ := r.Pick(probes)
 		t := codecTypes[typ]
-		var lines []string
-		for k := 0; k < t.NumField(); k++ {
-			f := t.Field(k)
-			if f.Anonymous || r.Chance(1, 4) {
-				continue
+		mkPara := func() string {
+			var lines []string
+			for k := 0; k < t.NumField(); k++ {
+				f := t.Field(k)
+				if f.Anonymous || r.Chance(1, 4) {
+					continue
+				}
+				key := f.Name
+				if it := f.Tag.Get("control"); it != "" {
+					key = it
+				}
+				lines = append(lines, key+": "+genFieldText(r, f))
 			}
-			key := f.Name
-			if it := f.Tag.Get("control"); it != "" {
-				key = it
+			for k := r.Intn(3); k > 0; k-- {
+				lines = append(lines, r.Pick(extra))
 			}
-			lines = append(lines, key+": "+genFieldText(r, f))
+			// shuffle lightly
+			if len(lines) > 1 && r.Bool() {
+				a, b := r.Intn(len(lines)), r.Intn(len(lines))
+				lines[a], lines[b] = lines[b], lines[a]
+			}
+			return strings.Join(lines, "\n") + "\n"
 		}
-		for k := r.Intn(3); k > 0; k-- {
-			lines = append(lines, r.Pick(extra))
-		}
-		// shuffle lightly
-		if len(lines) > 1 && r.Bool() {
-			a, b := r.Intn(len(lines)), r.Intn(len(lines))
-			lines[a], lines[b] = lines[b], lines[a]
-		}
-		text := strings.Join(lines, "\n") + "\n"
+		text := mkPara()
 		if r.Chance(1, 6) {
 			text += "\n" + text
+		}
+		// several different paragraphs (a Packages / Sources file): different subsets of fields
+		for r.Chance(1, 4) {
+			text += "\n" + mkPara()
+		}
+		{
+			o, a := codecOp("law-codecentry", typ, core.Hex(text))
+			g.Emit(o, a...)
 		}
 		o, a := codecOp("codecu", typ, core.Hex(text))
 		g.Emit(o, a...)
